@@ -37,7 +37,7 @@ def nabs(x):
 
 MANIFEST = dict(
     technique='explicit-state enumeration of a synthetic detection-map lattice (ridge geometry x heights x end-point responses x down-sampling) on the real LayoutEngine.parse, and of rotation x page shape x ridge sets on the real LayoutEngine.detect with a stub network; geometric oracle + rotation differential',
-    text='Bounded exhaustive: every single ridge of the lattice (4 rows x 2 offsets x 4 lengths x 3 slopes x 3 thicknesses x 3 height pairs x end-point responses on/off) x 4 down-sampling factors, every ordered pair / triple of ridges over an 8-variant alphabet, and two ridges sharing a row; decoding must return exactly one line per ridge with end points within 3 map px, rows within (1 + thickness/2) map px, heights equal to the map values times the factor, and the outline of baseline_to_textline. For rotations 0-3 on non-square and square pages, detect(image, rot) must agree within 1 px with the exact inverse rotation of the layout decoded from the rotated image (regions, baselines, outlines). Added sub-sweeps: two ridges starting on the same row, an independent reference of the outline, histories of pages of different print sizes through the real adaptive down-sampling logic (adaptive on/off x pixel budget exceeded or not), non-default engine options, and maps with 130-300 ridges. Orientation sequences (1,3 / 3,1 / 0,2 / 2,0 / 0,1,3) of one page on ONE engine through the real TorchParseNet.get_maps (image-encoded maps); different print sizes at the two map borders.',
+    text='Bounded exhaustive: every single ridge of the lattice (4 rows x 2 offsets x 4 lengths x 3 slopes x 3 thicknesses x 3 height pairs x end-point responses on/off) x 4 down-sampling factors, every ordered pair / triple of ridges over an 8-variant alphabet, and two ridges sharing a row; decoding must return exactly one line per ridge with end points within 3 map px, rows within (1 + thickness/2) map px, heights equal to the map values times the factor, and the outline of baseline_to_textline. For rotations 0-3 on non-square and square pages, detect(image, rot) must agree within 1 px with the exact inverse rotation of the layout decoded from the rotated image (regions, baselines, outlines). Added sub-sweeps: two ridges starting on the same row, an independent reference of the outline, histories of pages of different print sizes through the real adaptive down-sampling logic (adaptive on/off x pixel budget exceeded or not), non-default engine options, and maps with 130-300 ridges. Orientation sequences (1,3 / 3,1 / 0,2 / 2,0 / 0,1,3) of one page on ONE engine through the real TorchParseNet.get_maps (image-encoded maps); different print sizes at the two map borders. Wave 10: the same maps object decoded six times; skewed pages whose parallel ridges overlap in rows; the network (stub, and inside the real TorchParseNet) raising an out-of-memory error once during detect in every orientation - a layout that is returned must be the page\'s layout.',
     note='Synthetic piecewise-constant maps (no trained network); ridges separated by >= 25 map px vertically; tolerances as stated.',
     ref='3/C18')
 
